@@ -14,6 +14,7 @@ import ASV.Proofs.ProtoExtend
 import ASV.Proofs.ProtoRing
 import ASV.Proofs.ProtoRingSep
 import ASV.Proofs.ProtoRingFinal
+import ASV.Proofs.ProtoRingSup
 namespace ASV.C03
 open ASV ASV.Rules ASV.Proto ASV.Chains ASV.ChainSweep
 
@@ -454,6 +455,57 @@ theorem covered_implies_dropped (within : Lookup) (rules : List RuleM) (clusters
   rw [hr] at hr'; cases hr'
   exact hiff.2 ⟨o.rule, hs, o, ho, rfl, Or.inl hcov⟩
 
+/-- **… also on a ring, with cores read as sets of bases** (`_partial`: the covering core must not be the
+    whole ring written as two touching parts `[a, L) + [0, a)`, for which `location_contains_other` can miss
+    a core lying across `a`): on a circular record, if every base of `pc`'s core lies in the core of a
+    protocluster of a superior rule — wherever the origin falls, in particular when the superior's core
+    spans it — the redundancy test says `true`. -/
+theorem covered_implies_dropped_ring_partial (within : Lookup) (r : Rec) (rules : List RuleM) (clusters : List PC)
+    (pc : PC) (b : Bool) (h : isRedundant within rules clusters pc = .ok b) (rule : RuleM)
+    (hr : findRule rules pc.rule = .ok rule) (o : PC) (ho : o ∈ clusters) (hs : o.rule ∈ rule.superiors)
+    (hao : RingArea r.len o.core) (hap : RingArea r.len pc.core)
+    (hnt : ∀ a b', o.core = .compound [⟨a, r.len, .fwd⟩, ⟨0, b', .fwd⟩] → b' < a)
+    (hcov : Covers o.core pc.core) : b = true :=
+  covered_implies_dropped within rules clusters pc b h rule hr o ho hs
+    (contains_of_covers_ring r.len o.core pc.core hao hap hnt hcov)
+
+/-- **No reported protocluster lies under a reported superior (circular record, end to end)** — the
+    output-level reading the driver evaluates (`Chains.reportedUnderSuperior`): whenever
+    `detect_protoclusters_and_signatures` returns on a circular record with valid ring genes, no reported
+    protocluster has every base of its core inside the core of a reported protocluster of one of its
+    rule's superiors (`_partial`: unless that superior core is the whole ring as two touching parts). -/
+theorem reported_not_under_superior_ring_partial (within : Lookup) (r : Rec) (hcirc : r.circular = true)
+    (hL : 0 < r.len) (rules : List RuleM)
+    (hrules : ∀ name rule, findRule rules name = .ok rule → 0 ≤ rule.cutoff ∧ rule.cutoff ≤ r.len)
+    (hgenes : ∀ g ∈ r.genes, RingIn r.len g.loc) (outs : List Out)
+    (h : detectProtoclusters within r rules = .ok outs)
+    (low high : Out) (hlow : low ∈ outs) (hhigh : high ∈ outs) (rule : RuleM)
+    (hr : findRule rules low.pc.rule = .ok rule) (hs : high.pc.rule ∈ rule.superiors)
+    (hnt : ∀ a b, high.pc.core = .compound [⟨a, r.len, .fwd⟩, ⟨0, b, .fwd⟩] → b < a) :
+    ¬ Covers high.pc.core low.pc.core := by
+  intro hcov
+  simp only [detectProtoclusters, bind, Except.bind] at h
+  cases hst : detectStages within r rules with
+  | error e => simp [hst] at h
+  | ok s =>
+    simp only [hst, pure, Except.pure, Except.ok.injEq] at h
+    subst h
+    have hareas := (detectStages_ring within r hcirc hL rules hrules hgenes s hst).1
+    cases hne : r.genes.isEmpty with
+    | true =>
+      unfold detectStages at hst
+      simp only [hne, if_true, pure, Except.pure, Except.ok.injEq] at hst
+      subst hst
+      cases hlow
+    | false =>
+      obtain ⟨res, found0, found, ext0, d, ext, kept, _, _, _, _, hk, hfin⟩ := detectStages_ok within r rules s hne hst
+      obtain ⟨hsub, hnot⟩ := removeRedundant_kept within rules ext kept hk
+      have hl : low.pc ∈ kept := by rw [← hfin]; exact List.mem_map.2 ⟨low, hlow, rfl⟩
+      have hh : high.pc ∈ kept := by rw [← hfin]; exact List.mem_map.2 ⟨high, hhigh, rfl⟩
+      have := covered_implies_dropped_ring_partial within r rules ext low.pc false (hnot _ hl) rule hr high.pc
+        (hsub.subset hh) hs (hareas high hhigh) (hareas low hlow) hnt hcov
+      cases this
+
 /-! ### "… and not otherwise" does not hold: KF-C03-superior-overlap
 
   The property's last sentence ends "and not otherwise".  The full statement would be -/
@@ -514,6 +566,28 @@ example : ∀ g ∈ ringRec.genes, GeneIn ringRec.len 300 420 g.loc := by
 example : (match findCores ringRec 25 (ringRec.genes.map (·.loc)) with
     | .ok cores => cores.map (fun c => (c.start, c.end)) == [(300, 360), (400, 420)]
     | .error _ => false) = true := by decide +kernel
+
+/-- a superior core spanning the origin covers an inferior core before it: ring of length 100, superior genes
+    [92,97) and [0,5) (chained over the origin, cutoff 10), the first one also anchoring the inferior rule:
+    the test says redundant, and only the superior protocluster is reported -/
+def supRing : Rec := ⟨100, true,
+  [⟨1, .simple ⟨0, 5, .rev⟩, [("s", 0)], true⟩, ⟨2, .simple ⟨92, 97, .fwd⟩, [("s", 0), ("i", 0)], true⟩]⟩
+def supRingRules : List RuleM :=
+  [⟨"sup", 10, 2, .group false [.single false "s"], [], none⟩,
+   ⟨"inf", 10, 2, .group false [.single false "i"], ["sup"], none⟩]
+example : isRedundant (withinSpec supRing) supRingRules
+    [⟨"sup", .compound [⟨92, 100, .fwd⟩, ⟨0, 5, .fwd⟩], .compound [⟨90, 100, .fwd⟩, ⟨0, 7, .fwd⟩]⟩,
+     ⟨"inf", .simple ⟨92, 97, .fwd⟩, .simple ⟨90, 99, .fwd⟩⟩]
+    ⟨"inf", .simple ⟨92, 97, .fwd⟩, .simple ⟨90, 99, .fwd⟩⟩ = .ok true := by decide
+example : (match detectProtoclusters (withinSpec supRing) supRing supRingRules with
+    | .ok outs => outs.map (fun o => (o.pc.rule, o.pc.core)) == [("sup", Loc.compound [⟨92, 100, .fwd⟩, ⟨0, 5, .fwd⟩])]
+    | .error _ => false) = true := by decide +kernel
+example : RingArea 100 (.compound [⟨92, 100, .fwd⟩, ⟨0, 5, .fwd⟩]) ∧
+    Covers (.compound [⟨92, 100, .fwd⟩, ⟨0, 5, .fwd⟩]) (.simple ⟨92, 97, .fwd⟩) := by
+  refine ⟨⟨by decide, Or.inr ⟨92, 5, rfl⟩⟩, ?_⟩
+  intro i hi
+  simp only [Loc.mem, Loc.parts, List.any_cons, List.any_nil, Bool.or_false, Part.mem_iff, Bool.or_eq_true] at hi ⊢
+  omega
 
 /-- EXTENDERS, non-trivially: anchor `a` at [3006,3008), extender genes `x` at [2005,2007) (999 bases
     before the anchor) and `y` at [1003,1005) (1000 bases before `x`, 2001 before the anchor), cutoff 1000:
